@@ -78,6 +78,24 @@ def family():
     return progs
 
 
+def late_pin_family():
+    """A reader that looked the generation up BEFORE it was superseded reaches its pin only after the
+    retirement pass has counted the readers: the pin must be refused (or the markers wait).  Three
+    preemptions, only at the points around the lookup, the pin, and the marker write."""
+    progs = []
+    points = ["get_read", "resolve_cache", "resolve_retry", "rd_pinned", "rd_sector", "ret_device", "ret_release", "range_slot", "cas_read"]
+    for cache in (False, True):
+        cfg = {"pers": True, "ttl": True, "lim": -1, "cache": cache, "blocks": 24}
+        for (va, vb, tag) in ((BIG1, BIG2, "multi"), (ONE1, ONE2, "single")):
+            init = [{"op": "insert", "k": 1, "v": va, "auto": False, "tsv": NOW - 10 * E9}, {"op": "flush"}]
+            for rn, r in (("get", [{"op": "get", "k": 1}]), ("range", [{"op": "range", "lo": 1, "hi": 2, "lim": 3}])):
+                for wn, w in (("delete", [{"op": "delete", "k": 1}, {"op": "flush"}]),
+                              ("update", [{"op": "insert", "k": 1, "v": vb}, {"op": "flush"}])):
+                    progs.append(("latepin_%s_%s_%s_%s" % (tag, "c" if cache else "n", rn, wn),
+                                  {"cfg": cfg, "keys": ["k1", "k2"], "init": init, "points": points, "threads": [r, w]}))
+    return progs
+
+
 def run_pin(rd, pinfile):
     return v.run_tlc("PinTrace", "PinTrace.cfg", rd, workers=1, timeout=900, env_extra={"TRACE": pinfile},
                      depth_first=True, coverage=False, xmx="4g")
@@ -95,6 +113,11 @@ def run(tier, seed):
         keep = ("deferred_", "fulldev_")
         fam = [x for x in fam if x[0].startswith(keep)] + [x for x in fam if not x[0].startswith(keep)][:14]
     groups = [fam[i:i + 2] for i in range(0, len(fam), 2)]
+    late = late_pin_family()
+    if tier == "quick":
+        late = [x for x in late if "_n_" in x[0]]
+    n_std = len(groups)
+    groups += [late[i:i + 2] for i in range(0, len(late), 2)]
     shm = v.shm_dir("c08")
 
     def one(arg):
@@ -108,7 +131,8 @@ def run(tier, seed):
         if os.path.exists(pin):
             os.remove(pin)
         rc, so, se = v.run_cmd([fxv, "conc", "--mode", "dfs", "--prog", pf, "--out", trace, "--pinout", pin,
-                                "--maxsched", "40" if tier == "quick" else "250", "--preempt", "2", "--dir", shm],
+                                "--maxsched", ("150" if gi >= n_std else "40") if tier == "quick" else "250",
+                                "--preempt", "3" if gi >= n_std else "2", "--dir", shm],
                                timeout=900)
         info = {}
         for line in so.splitlines():
